@@ -77,7 +77,8 @@ class GPSData(BytesInterface):
         self.data_valid: Literal["A", "V"] = data_valid
         self.greenwich_time: Optional[time] = (
             greenwich_time
-            if isinstance(greenwich_time, time)
+            # None = no fix time, as the parser stores it for NULs (written as NULs)
+            if greenwich_time is None or isinstance(greenwich_time, time)
             else (
                 time(
                     hour=int(greenwich_time[0:2]),
@@ -90,7 +91,7 @@ class GPSData(BytesInterface):
         )
         self.greenwich_date: Optional[date] = (
             greenwich_date
-            if isinstance(greenwich_date, date)
+            if greenwich_date is None or isinstance(greenwich_date, date)
             else (
                 date(
                     day=int(greenwich_date[0:2]),
